@@ -14,7 +14,16 @@ if [ ! -d $wt ]; then git -C /repo worktree add -q --detach $wt HEAD || exit 2; 
 head=$(git -C /repo rev-parse HEAD)
 git -C $wt checkout -q --detach $head && git -C $wt reset -q --hard && git -C $wt clean -qfd -e target
 mkdir -p $h/harness $h/evidence $h/replays
-rsync -a --delete --exclude target /verif/harness/ $h/harness/
+if [ -n "${MUT_COMMITTED:-}" ]; then
+    # the harness as committed (evaluations that run while the working tree
+    # is being edited)
+    rm -rf $h/harness.new && mkdir -p $h/harness.new
+    git -C /verif archive HEAD harness | tar -x -C $h/harness.new
+    rsync -a --delete --exclude target $h/harness.new/harness/ $h/harness/
+    rm -rf $h/harness.new
+else
+    rsync -a --delete --exclude target /verif/harness/ $h/harness/
+fi
 sed -i "s#/repo/#$wt/#g" $h/harness/Cargo.toml
 cp /verif/known_findings.json /verif/properties.jsonl $h/
 if [ "$1" = "--patch" ]; then
